@@ -85,16 +85,59 @@ class Query:
             raise Inconclusive("query %s: no solver answered within %ds: %r" % (self.name, timeout_s, answers))
         self.result = definite.pop()
         if self.result == "sat":
-            self.s.set("timeout", 300 * 1000)
+            self.s.set("timeout", 60 * 1000)
             r = str(self.s.check())
             if r != "sat":
-                raise Inconclusive("query %s: sat according to %r but no model could be produced in-process" % (self.name, answers))
+                # ask cvc5 for the values of all constants and pin them in-process
+                vals = self._cvc5_values(smt2c, timeout_s)
+                self.s.push()
+                for name, sort, val in vals:
+                    try:
+                        if sort == "String":
+                            self.s.add(z3.String(name) == z3.StringVal(val))
+                        elif sort == "Int":
+                            self.s.add(z3.Int(name) == int(val))
+                        elif sort == "Bool":
+                            self.s.add(z3.Bool(name) == (val == "true"))
+                    except Exception:
+                        pass
+                self.s.set("timeout", 120 * 1000)
+                r = str(self.s.check())
+                if r != "sat":
+                    self.s.pop()
+                    raise Inconclusive("query %s: sat according to %r but no model could be produced in-process" % (self.name, answers))
+                self._model = self.s.model()
+                self.s.pop()
         for f_ in (path, pathc):
             try:
                 os.remove(f_)
             except OSError:
                 pass
         return self.result
+
+    def _cvc5_values(self, smt2c, timeout_s):
+        """values of all 0-ary String/Int/Bool constants according to cvc5 (used to seed the in-process model)"""
+        decls = re.findall(r"\(declare-fun (\S+) \(\) (String|Int|Bool)\)", smt2c)
+        if not decls:
+            return []
+        body = smt2c.replace("(check-sat)", "")
+        q = "(set-option :produce-models true)\n" + body + "\n(check-sat)\n(get-value (%s))\n" % " ".join(n for n, _ in decls)
+        path = os.path.join(BUILD, "smt", "values_%d.smt2" % os.getpid())
+        with open(path, "w") as f:
+            f.write(q)
+        rc, out, wall, to = run(["cvc5", "--lang", "smt2", "--strings-exp", "--tlimit=%d" % (timeout_s * 1000), path], timeout=timeout_s + 30)
+        vals = []
+        sorts = dict(decls)
+        for m in re.finditer(r"\((\S+) (\"(?:[^\"]|\"\")*\"|\(- \d+\)|-?\d+|true|false)\)", out):
+            name, v = m.group(1), m.group(2)
+            if name not in sorts:
+                continue
+            if v.startswith('"'):
+                v = v[1:-1].replace('""', '"')
+            elif v.startswith("(-"):
+                v = "-" + v[3:-1].strip()
+            vals.append((name, sorts[name], v))
+        return vals
 
     def check_cases(self, cases, per_case_timeout_s=120, nproc=12):
         """Exhaustive case split (the cases must cover every model of the base constraints; the caller
@@ -189,8 +232,14 @@ class Query:
         path = os.path.join(BUILD, "smt", re.sub(r"\W", "_", self.name) + ".smt2")
         with open(path, "w") as f:
             f.write(smt2)
+        # z3 prints character constants as (_ Char n); SMT-LIB 2.6 / cvc5 spell them (_ char #xh)
+        smt2c = re.sub(r"\(seq\.unit \(_ Char (\d+)\)\)", lambda m: "(_ char #x%x)" % int(m.group(1)), smt2)
+        smt2c = re.sub(r"\(_ Char (\d+)\)", lambda m: "(_ char #x%x)" % int(m.group(1)), smt2c)
+        pathc = path + ".cvc5.smt2"
+        with open(pathc, "w") as f:
+            f.write(smt2c)
         for tool, cmd in (("z3-4.8.12", ["/usr/bin/z3", "-T:%d" % timeout_s, path]),
-                          ("cvc5", ["cvc5", "--lang", "smt2", "--tlimit=%d" % (timeout_s * 1000), path])):
+                          ("cvc5", ["cvc5", "--lang", "smt2", "--strings-exp", "--tlimit=%d" % (timeout_s * 1000), pathc])):
             rc, out, wall, to = run(cmd, timeout=timeout_s + 30)
             ans = None
             if "(error" in out:
